@@ -251,6 +251,10 @@ theorem C16_history_index_consistent (ops : List HOp) (hg : HGuarded Ring.empty 
     fun h hh => RInv_lookup r (RInv_runH _ RInv_empty ops hg) h hh
   exact ⟨h1, notFound_nil_of r h1⟩
 
+/-- non-vacuity: a session's first host, then a report that replaces it by a new host id on its address, then a removal -/
+example : HGuarded Ring.empty [.op (.addOrUpdate ⟨1, 1, 7, 7⟩), .refresh (fun _ => false) [⟨2, 2, 7, 7⟩, ⟨3, 3, 8, 8⟩], .op (.remove 3)] := by
+  refine ⟨by decide, by decide, trivial⟩
+
 /-- the observation `covered` = `Ring.uncovered` of the differential run is empty after every
 `RemGuarded` history of ring operations -/
 theorem C16_ops_uncovered_nil (ops : List ROp) (hg : RemGuarded Ring.empty ops) :
@@ -269,6 +273,23 @@ theorem C16_ops_uncovered_nil (ops : List ROp) (hg : RemGuarded Ring.empty ops) 
   · simp only [h1, hm, hadr, decide_true, beq_self_eq_true, Bool.and_true, Bool.true_and, e, decide_false,
       Bool.false_or, Bool.not_eq_eq_eq_not, Bool.not_true, Bool.not_eq_false]
     exact List.any_eq_true.mpr ⟨h', hm, by simp [e, hadr]⟩
+
+/-- the observation `nostale` = `Ring.staleAddrs` of the differential run is empty after EVERY history -/
+theorem C16_stale_nil (ops : List HOp) (n : Nat) : (ops.foldl applyH Ring.empty).staleAddrs n = [] := by
+  have hall := C16_byip_never_stale ops
+  dsimp only at hall
+  generalize ops.foldl applyH Ring.empty = r at hall
+  unfold Ring.staleAddrs
+  rw [List.filter_eq_nil_iff]
+  intro a _
+  have := hall a
+  generalize r.getHostByIP a = res at this
+  obtain ⟨x, b⟩ := res
+  cases b with
+  | false => cases x <;> simp
+  | true =>
+    obtain ⟨h, rfl, hm, ha⟩ := this x rfl
+    simp [hm, ha]
 
 /-- RESIDUAL case (kernel-checked), outside what the property demands: two LIVE hosts on one address is
 not a state a cluster reports (`GoodReport`), it exists only transiently inside the diff loop, where the
